@@ -71,6 +71,9 @@ pub fn base_project(n: usize, rich: bool) -> ItemProject {
             items.push(mixed.clone());
         }
         items.push(format!("pub fn notify_{i}(app: &AppHandle, payload: T{i}) {{ app.emit(\"changed-{i}\", payload).unwrap(); }}\n", i = i));
+        // two event names with one listener identifier (`tick:done` / `tick-done`), in alternating files (kept away from both ends of the file:
+        // the first and the last emit site of a file are the shared / mixed ones)
+        items.push(format!("pub fn tick_{i}(app: &AppHandle, n: i32) {{ app.emit(\"{name}\", n).unwrap(); }}\n", i = i, name = if i % 2 == 0 { "tick:done" } else { "tick-done" }));
         // an emit whose payload is an untyped local: must stay `unknown` whatever else is in the file
         items.push(format!("pub fn raw_{i}(app: &AppHandle) {{ let snapshot = build_snapshot(); app.emit(\"raw-{i}\", snapshot).unwrap(); }}\n", i = i));
         if i % 2 == 1 {
@@ -78,8 +81,6 @@ pub fn base_project(n: usize, rich: bool) -> ItemProject {
         } else {
             items.push(shared);
         }
-        // two event names with one listener identifier (`tick:done` / `tick-done`), in alternating files
-        items.push(format!("pub fn tick_{i}(app: &AppHandle, n: i32) {{ app.emit(\"{name}\", n).unwrap(); }}\n", i = i, name = if i % 2 == 0 { "tick:done" } else { "tick-done" }));
         files.push((path, items));
     }
     ItemProject { files }
